@@ -104,7 +104,7 @@ def sanity(pid, seed):
     err = build()
     if err:
         return dict(error="twin build failed: " + err[-400:])
-    fams = {"C06": ["bdd", "dnf", "proper", "semtype"], "C05": ["semtype", "listfold"], "C04": ["bdd", "dnf", "proper", "semtype"], "C07": ["dnf", "schema"]}.get(pid, [])
+    fams = {"C06": ["bdd", "dnf", "proper", "semtype"], "C05": ["semtype", "listfold"], "C04": ["bdd", "dnf", "proper", "semtype"], "C07": ["dnf", "schema"]}   # "schema" also runs the enumerated schema2.get(pid, [])
     out = dict(families=fams, rows=[], disagreements=[], wall_s=0)
     for fam in fams:
         rc, rows, stderr = run([fam])
